@@ -164,16 +164,28 @@ class G(object):
             ident[nm] = vals
         return ident
 
+    def big_identity(self):
+        """A long, many-valued identity: some hundred group / entitlement values (about 60-130 kB of XML)."""
+        r = self.r
+        name = r.pick(["eduPersonAffiliation", "ou", "title"])
+        n = r.pick([250, 400, 600])
+        vals = ["urn:mace:example.org:group:%s:%s" % (self.marker(), "x" * r.pick([120, 160])) for _ in range(n)]
+        ident = {name: vals}
+        ident.update(self.identity(hostile=0.3, empty_ok=False))
+        ident[name] = vals
+        return ident
+
     def now_of(self, node, t=None):
         """What node's clock reads (float) at simulated time t, before any jump event."""
         return EPOCH + (self.t if t is None else t) + self.skew.get(node, 0.0)
 
     # ---------------------------------------------------------------- basic login
-    def login(self, sp, idp, p, rb=None, sign_req=None, resp_kw=None, gap=1.0, deliver=True):
+    def login(self, sp, idp, p, rb=None, sign_req=None, resp_kw=None, gap=1.0, deliver=True, resp_redirect=None):
         f = self.new_flow()
         rb = rb or self.r.pick(["redirect", "post"])
         extra = {}
-        if not sp.get("no_redirect_acs") and self.r.chance(0.2):
+        want_redirect = self.r.chance(0.2) if resp_redirect is None else resp_redirect
+        if not sp.get("no_redirect_acs") and want_redirect:
             extra["resp_binding"] = "redirect"      # the SP asks for the answer over HTTP-Redirect
         self.ev("start", f=f, sp=sp["name"], idp=idp["name"], rb=rb, sign=sign_req, **extra)
         self.tick(gap)
@@ -365,6 +377,18 @@ def gen_c02(seed, tier):
             p["digalg"] = r.pick(DIGALGS)
         if enc:
             p["self_contained"] = r.chance(0.5)
+        if not enc and r.chance(0.12):
+            # the attributes travel in a signed assertion of their own, encrypted inside the Advice of the main
+            # assertion: one more signature that is present and has to verify
+            pa = dict(p, advice=True, dialect={"signed_advice": True}, self_contained=True)
+            if not pa.get("sigalg"):
+                pa["sigalg"], pa["digalg"] = r.pick(SIGALGS), r.pick(DIGALGS)
+            if faulty:
+                # corrupted in the hand-over file right after it was signed (before it is encrypted and before
+                # anything around it is signed)
+                pa["handover"] = {"where": r.pick(["sigvalue", "digest", "text", "attr"]), "target": "assertion"}
+            g.login(sp, idp, pa, gap=0.5)
+            continue
         if not faulty:
             g.login(sp, idp, p, gap=0.5)
             continue
@@ -468,7 +492,10 @@ def gen_c08(seed, tier):
             g.ev("resp", f=f, r=0, sub=g.sub(), **kw)
             g.tick()
         else:
-            f = g.login(sp, idp, p, resp_kw=kw)
+            big = r.chance(0.05)
+            if big:
+                p["identity"] = g.big_identity()
+            f = g.login(sp, idp, p, resp_kw=kw, resp_redirect=(r.chance(0.7) if big else None))
         if faulty:
             if fk == "dup":
                 g.ev("resp", f=f, r=0, dup=True, sub=g.sub())
@@ -688,6 +715,20 @@ def gen_c03(seed, tier):
                 d["assertion_issuer"] = fed.idp_entity(other["name"])
             p["dialect"] = d
         g.login(sp, idp, p)
+        if r.chance(0.4):
+            # the other signed message types take the same trust decision: a logout request or query of the SP
+            # at the IdP, or a logout request of the IdP at the SP, signed with whatever key file is deployed now
+            kind = r.pick(["logout_request", "logout_request", "attribute_query", "logout_idp2sp", "authn_query"])
+            f2 = g.new_flow()
+            if kind == "logout_idp2sp":
+                g.ev("mkreq", f=f2, sp=sp["name"], idp=idp["name"], kind="logout_request", direction="idp2sp",
+                     rb=r.pick(["soap", "post"]), sign=True)
+            else:
+                g.ev("mkreq", f=f2, sp=sp["name"], idp=idp["name"], kind=kind,
+                     rb=(r.pick(["soap", "post"]) if kind == "logout_request" else "soap"), sign=True)
+            g.tick()
+            g.ev("req", f=f2)
+            g.tick()
     return g.scenario()
 
 
@@ -725,12 +766,24 @@ def gen_c17(seed, tier):
                 p["encrypt"] = None
             g.login(sp, idp, p)
             continue
-        variant = r.weighted([("plain", 6), ("advice", 1), ("pefim", 1)]) if clean or r.chance(0.5) else "plain"
+        variant = r.weighted([("plain", 6), ("advice", 1), ("pefim", 1), ("signed-advice", 1)]) if clean or r.chance(0.5) else "plain"
         if variant == "advice":
             p["advice"] = True
         elif variant == "pefim":
             p["pefim"] = True
             p["encrypt"] = r.chance(0.5)
+        elif variant == "signed-advice":
+            # the attributes in a signed assertion of their own, encrypted inside the Advice; the main assertion
+            # around it encrypted as well or not; in faulty runs the advice assertion is corrupted right after it
+            # was signed (inside both layers of ciphertext)
+            p["advice"] = True
+            p["dialect"] = {"signed_advice": True}
+            p["encrypt"] = r.chance(0.6)
+            p["self_contained"] = True
+            if not p.get("sigalg"):
+                p["sigalg"], p["digalg"] = r.pick(SIGALGS), r.pick(DIGALGS)
+            if not clean:
+                p["handover"] = {"where": r.pick(["sigvalue", "digest", "text", "attr"]), "target": "assertion"}
         if clean or variant != "plain":
             g.login(sp, idp, p)
             continue
